@@ -601,3 +601,51 @@ Proof.
   unfold encode_message. destruct m; cbn [message_type_value];
     match goal with |- context [be_enc 1 ?k] => change (be_enc 1 k) with [k] end; cbn [app]; eauto.
 Qed.
+
+(* ------------------------------------------------------------------ *)
+(* what the transaction decoder returns is well formed, hence stable   *)
+(* under re-encoding (forwarding a received transaction)               *)
+(* ------------------------------------------------------------------ *)
+
+Lemma Forall_forallb {A} (f : A -> bool) l : Forall (fun x => f x = true) l -> forallb f l = true.
+Proof. induction 1; cbn [forallb]; [reflexivity|]. now rewrite H, IHForall. Qed.
+
+Lemma tx_decoded_wf bs t : bytes_ok bs = true -> decode_tx bs = Ok t -> wf_tx t = true.
+Proof.
+  intros Hb H. unfold decode_tx in H.
+  destruct (Nlen bs <? TRANSACTION_SIZE) eqn:EL; [discriminate|].
+  inv_bind H. destruct (255 <? be_dec x) eqn:Ein; [discriminate|].
+  inv_bind H. destruct (255 <? be_dec x0) eqn:Eout; [discriminate|].
+  inv_bind H. inv_bind H. inv_bind H. inv_bind H. inv_bind H. inv_bind H.
+  destruct (negb (x6 <? 9)) eqn:Ety; [discriminate|].
+  cbv zeta in H. unfold TRANSACTION_SIZE, SLIP_SIZE, HOP_SIZE in *.
+  inv_bind H. inv_bind H. inv_bind H. inv_bind H. inversion H; subst t; clear H.
+  rewrite sl_ok in *.
+  assert (B0 : 93 <= Nlen bs) by lia.
+  destruct (dec_items_ok_inv 309 59 decode_slip encode_slip slip_canonical bs Hb _ _ _ _ B0 E7)
+    as (L7 & S7).
+  pose proof S7 as S7'. apply slice_some in S7' as (_ & B7 & _).
+  destruct (dec_items_ok_inv 310 59 decode_slip encode_slip slip_canonical bs Hb _ _ _ _ B7 E8)
+    as (L8 & S8).
+  pose proof E9 as S9'. apply slice_some in S9' as (_ & B9 & _).
+  destruct (dec_items_ok_inv 312 130 decode_hop encode_hop (fun x v _ H => hop_canonical x v H) bs Hb _ _ _ _ B9 E10)
+    as (L10 & S10).
+  pose proof (dec_items_ok_wf 309 59 decode_slip (fun s => wf_slip s = true) slip_decoded_wf bs Hb _ _ _ _ E7) as W7.
+  pose proof (dec_items_ok_wf 310 59 decode_slip (fun s => wf_slip s = true) slip_decoded_wf bs Hb _ _ _ _ E8) as W8.
+  pose proof (dec_items_ok_wf 312 130 decode_hop (fun h => wf_hop h = true) hop_decoded_wf bs Hb _ _ _ _ E10) as W10.
+  apply Forall_forallb in W7, W8, W10.
+  pose proof (slice_Nlen _ _ _ _ E9) as L9.
+  pose proof (be_dec_slice_lt 8 _ _ _ _ Hb E4 eq_refl) as Bts.
+  pose proof (be_dec_slice_lt 4 _ _ _ _ Hb E5 eq_refl) as Brep.
+  pose proof (be_dec_slice_lt 4 _ _ _ _ Hb E1 eq_refl) as Bml.
+  pose proof (be_dec_slice_lt 4 _ _ _ _ Hb E2 eq_refl) as Bpl.
+  pose proof (slice_Nlen _ _ _ _ E3) as L3.
+  rewrite pow256_8, pow256_4 in *.
+  unfold wf_tx, arr_ok, two64, two32. cbn [t_from t_to t_data t_path t_sig t_ts t_repl t_type].
+  rewrite W7, W8, W10, (slice_ok _ _ _ _ Hb E9), (slice_ok _ _ _ _ Hb E3).
+  repeat (apply andb_true_iff; split); try reflexivity; lia.
+Qed.
+
+Lemma tx_wire_stable bs t :
+  bytes_ok bs = true -> decode_tx bs = Ok t -> decode_tx (encode_tx t) = Ok t.
+Proof. intros Hb H. apply tx_decode_encode. eapply tx_decoded_wf; eauto. Qed.
